@@ -179,7 +179,7 @@ def has_array_of_struct(prog):
 
 SRC_KIND = {"src-nested": "nested", "src-after-return": "after-return", "src-undef": "undef", "src-builtin-name": "builtin-name",
             "src-cycle": "cycle", "src-self": "cycle", "src-wf": "nested", "src-dup": "dup", "src-spelling": "spelling",
-            "src-unicode": "unicode-name"}
+            "src-unicode": "unicode-name", "src-dead-branch": "dead-branch"}
 
 
 def direct_oracle(prog, obs, cls=""):
@@ -454,7 +454,7 @@ def audit(cases):
     return dict(sorted(acc.items()))
 
 
-REQUIRED = (["stream:src-spelling", "stream:src-unicode", "stream:src-nested", "stream:src-after-return", "stream:src-undef", "stream:src-builtin-name", "stream:src-dup", "class:src-wf->OLaid", "class:src-self->ODiag", "class:src-cycle->ODiag", "outcome:OLaid", "outcome:ODiag:selfref", "outcome:ODiag:cycle", "outcome:OUnresolved", "outcome:OTooLarge",
+REQUIRED = (["stream:src-dead-branch", "stream:src-spelling", "stream:src-unicode", "stream:src-nested", "stream:src-after-return", "stream:src-undef", "stream:src-builtin-name", "stream:src-dup", "class:src-wf->OLaid", "class:src-self->ODiag", "class:src-cycle->ODiag", "outcome:OLaid", "outcome:ODiag:selfref", "outcome:ODiag:cycle", "outcome:OUnresolved", "outcome:OTooLarge",
              "outcome:ONeedsContext", "outcome:OSizeAlign", "type:ptr", "type:slice", "type:struct-by-value", "type:array",
              "array-of-struct", "ptr-to-struct", "array-len:0", "array-len:1", "array-len:2-16", "array-len:17-300",
              "array-len:>=2^29", "array-depth:2", "array-depth:3", "nesting-depth:2", "nesting-depth:3", "nesting-depth:4",
@@ -654,6 +654,7 @@ def run(ctx):
             if ";" in comp or "(" in comp:
                 distinct.add((prof, comp))
         reported = set()
+        flagged = set()      # cases the direct oracle reports with their input: not reported again as a broken tie
         last_wf = None
         for q, o, comp, cls, detail in cases:
             if not q.startswith("QCompute"):
@@ -661,8 +662,10 @@ def run(ctx):
             prog = parse_prog(comp)
             d = direct_oracle(prog, o, cls)
             if d and cls.startswith("src-"):
-                d = (d[0], d[1] + f" [source stream {cls}; type spelling / optimisation level: {detail}; names S7001.. = Int, Float, Missing, S7101.. = Élan, Ωmega, Ärmel, Öse, Жук, Ñandú, Şekil, Δelta]")
+                sig = d[0] if d[0].startswith(("lowered-field-type-mismatch", "duplicate-struct")) else d[0] + ":" + SRC_KIND.get(cls, "src")
+                d = (sig, d[1] + f" [source stream {cls}; type spelling / optimisation level: {detail}; names S7001.. = Int, Float, Missing, S7101.. = Élan, Ωmega, Ärmel, Öse, Жук, Ñandú, Şekil, Δelta]")
             if d:
+                flagged.add((q, o))
                 oracle_fail += 1
                 if d[0] not in reported:
                     reported.add(d[0])
@@ -693,7 +696,8 @@ def run(ctx):
         drift = [i for i in fails if cases[i][3] in ("dup", "src-dup")]
         # a panic of the printer on a laid-out program is reported by the direct oracle with its input
         # (print-panics*), not a second time as a broken tie
-        fails = [i for i in fails if cases[i][3] not in ("dup", "src-dup") and cases[i][1] not in ("OPrintPanic", "OTypeMismatch")]
+        fails = [i for i in fails if cases[i][3] not in ("dup", "src-dup") and cases[i][1] not in ("OPrintPanic", "OTypeMismatch")
+                 and not (cases[i][3].startswith("src-") and (cases[i][0], cases[i][1]) in flagged)]
         if drift:
             ctx.cov["model_drift_on_duplicate_names"] = ctx.cov.get("model_drift_on_duplicate_names", 0) + len(drift)
             ctx.notes.append(f"{prof}: model and implementation differ on {len(drift)} inputs with duplicate struct names "
